@@ -119,6 +119,9 @@ def leaf_with_path(rng, doc, nodes, pos, pcls):
     P = path_to(rng, doc, pcls)
     vals = nodes or G.pools(doc)[0]
     if pos == "positional":
+        if P["$path"].get("datum") == "dtype" and rng.random() < 0.6:
+            # the type of this node against the type found at another path
+            return PC.L("value", rng.choice(["equal_to", "not_equal_to", "in_"]), P, pre="dtype")
         fn = rng.choice(VALUE_FNS_SINGLE)
         return PC.L("value", fn, P)
     if pos == "keyword":
@@ -181,9 +184,10 @@ def strata(tier):
                 for j in range(k):
                     yield make_case(G.rng_for("C17-strata", pos, pcls, via, j), tier, pos, pcls, via)
     # escaped literal mappings
-    for j, lit in enumerate([{"path": ["a"]}, {"path": 3}, {"path.length": ["a"]}, {"path": ["a"], "b": 1}]):
+    for j, lit in enumerate([{"path": ["a"]}, {"path": 3}, {"path.length": ["a"]}, {"path": ["a"], "b": 1}, {"Path": ["a"]},
+                             {"PATH.First": 1}, {"pAtH.length": ["a"]}]):
         for fn in ("equal_to", "in_"):
-            doc = {"a": lit, "b": 3, "c": {"path": ["zz"]}}
+            doc = {"a": lit, "b": 3, "c": {"path": ["zz"]}, "d": {k.lower(): v for k, v in lit.items()}}
             yield {"rule": {"path": PC.mkpath([{"p": "mol"}]), "cond": PC.L("value", fn, lit if fn == "equal_to" else [lit, 3]),
                             "cast": None}, "doc": doc, "via": "spec", "pos": "escaped-literal", "pcls": "literal"}
 
@@ -209,6 +213,21 @@ def required(m, tier):
     if st.get("with-cast", 0) < 100:
         out.append("too few cases with casts")
     return out[:6]
+
+
+def retyped(x):
+    """an ==-equal copy whose numbers have another type (1 -> 1.0, 2.0 -> 2, True -> 1)"""
+    if type(x) is dict:
+        return {k: retyped(v) for k, v in x.items()}
+    if type(x) is list:
+        return [retyped(v) for v in x]
+    if type(x) is bool:
+        return int(x)
+    if type(x) is int and abs(x) < 2**53:
+        return float(x)
+    if type(x) is float and x == int(x) and abs(x) < 2**53:
+        return int(x)
+    return x
 
 
 def verdict(rule, doc):
@@ -261,6 +280,17 @@ def run(case, ctx):
     elif v1 != v2:
         kind = "escaped-literal" if pos == "escaped-literal" else "verdict"
         ctx.violate(f"C17/{kind}/{ktail}", f"with the path argument ({via}): {v1}\n with the literal it denotes: {v2}\n rule={rterm}\n literal condition={lit_cond}\n doc={doc!r}")
+    # history: the same rule object then judges a document that is == the first one in Python but
+    # differs in the types of its numbers (1 / 1.0 / True) - and must judge it like a fresh rule does
+    twin = retyped(doc)
+    if canon(twin) != canon(doc):
+        v_shared = verdict(r_path, twin)
+        okf, fresh = call(build_rule, rterm, via)
+        v_fresh = verdict(fresh, twin) if okf else None
+        ctx.count("history:retyped-twin-document")
+        if okf and v_shared != v_fresh:
+            ctx.violate(f"C17/history/{ktail}", f"after judging a document, the same rule judges an ==-equal but differently typed "
+                        f"document as {v_shared}; a fresh rule says {v_fresh}\n rule={rterm}\n first doc={doc!r}\n second doc={twin!r}")
     mp = m0["per_rule"][0]
     mv = (mp["valid"], mp["tested"], tuple(canon(tuple(p)) for p, _ in mp["failures"]))
     if v1[0] != "raise" and v1 != mv:
